@@ -145,7 +145,11 @@ func c09World(env *core.Env, idx int) (*gen.World, bool) {
 	o.Elements = 1 + rng.Intn(3)
 	o.MaxDepth = 1 + rng.Intn(2)
 	o.RefDensity = []float64{0.5, 0.65, 0.8}[rng.Intn(3)]
-	return gen.GenWorld(rng, o), rng.Intn(2) == 0
+	w := gen.GenWorld(rng, o)
+	if idx%5 == 0 {
+		w = gen.Relocate(w, gen.Layouts[(idx/5)%len(gen.Layouts)])
+	}
+	return w, rng.Intn(2) == 0
 }
 
 type skipWalker struct {
@@ -414,7 +418,7 @@ func init() {
 		Run:      c09Run,
 		Floors: func(env *core.Env) []string {
 			return []string{"schema-ref-holders-checked", "schema-refs-rewritten", "schema-refs-in-imported-elements", "positions-compared", "two-stage-compared", "world.acyclic", "world.cyclic",
-				"dir.same", "dir.sub", "dir.parent", "dir.cousin", "dir.http", "feat.chain-across-documents", "feat.twin-text-world", "feat.long-chain-world", "second-root-in-same-process"}
+				"dir.same", "dir.sub", "dir.parent", "dir.cousin", "dir.http", "feat.chain-across-documents", "feat.twin-text-world", "feat.long-chain-world", "second-root-in-same-process", "feat.layout.ports", "feat.layout.hosts", "feat.layout.schemes"}
 		},
 		Assumptions: []string{"the two-stage comparison feeds the skip result back as the root document at the same location, with the same loader"},
 	})
